@@ -33,9 +33,9 @@ class CamelSame(conventions.Convention):
 
 
 class UpperCamel(conventions.Convention):
-    """functions UPPER, parameters camelCase"""
+    """functions UPPER (operator / special names starting with # or * are left alone), parameters camelCase"""
     def convert_function_name(self, name):
-        return name.upper()
+        return name.upper() if name[:1].isalpha() else name
 
     def convert_parameter_name(self, name):
         return camel(name)
